@@ -149,7 +149,7 @@ Proof. exact abc_deriv_derive_real. Qed.
 
 (* ---- tie T at class level: the hess methods regenerated from the NumPy source (Gen/Classes.v) are the model Hessians ---- *)
 From DK.Gen Require Import Classes.
-From DK.Proofs Require Import GenClasses.
+From DK.Proofs Require Import GenClassesHess.
 Theorem C14_source_device_hess : forall n (s : list R), Device_hess (A:=R) n s = dev_hess n.
 Proof. exact gen_device_hess. Qed.
 Theorem C14_source_cdevice_hess : forall n a b (s : list R), CDevice_hess (A:=R) n a b s = dev_hess n.
